@@ -69,17 +69,20 @@ def mutate(place, p):
       p.append('junk')
 
 
-def c04_refs(place: int, evaluate: bool, rscope: int, amb: bool, mp: int, mq: int,
+AMBIENT = ['', 'amb', 'x/r1', 'xr1', 'r1', 'q/r1/r2']
+
+
+def c04_refs(place: int, evaluate: bool, rscope: int, amb: int, mp: int, mq: int,
              ncalls: int, mut: bool, v0: int, v1: int, v2: int, va: int, w0: int,
              cp: int, cq: int) -> bool:
   """
-  pre: 0 <= place < 8 and 0 <= rscope < 3 and 0 <= mp < 3 and 0 <= mq < 2 and 1 <= ncalls <= 3
+  pre: 0 <= place < 8 and 0 <= rscope < 3 and 0 <= amb < 6 and 0 <= mp < 3 and 0 <= mq < 2 and 1 <= ncalls <= 3
   """
   world.fresh()
   place = rt.pick(place, 8)
   evaluate = rt.flag(evaluate)
   rscope = rt.pick(rscope, 3)
-  amb = rt.flag(amb)
+  amb = rt.pick(amb, 6)
   mp = rt.pick(mp, 3)
   mq = rt.pick(mq, 2)
   ncalls = rt.pick(ncalls, 4)
@@ -96,13 +99,14 @@ def c04_refs(place: int, evaluate: bool, rscope: int, amb: bool, mp: int, mq: in
         'vw.cons.q = @vw.src2()', ''])
     gin.parse_config(text)
     cfg_before = gin.config_str()
-  ambient = ['amb'] if amb else []
+  ambient = AMBIENT[amb].split('/') if amb else []
   if rscope:
     src_scope = RSCOPE[rscope].split('/')
     src_val = [v1, v2][rscope - 1]
   else:
     src_scope = ambient
-    src_val = va if amb else v0
+    # value bound at the longest applicable prefix of the ambient scope
+    src_val = {0: v0, 1: va, 2: v0, 3: v0, 4: v1, 5: v0}[amb]
   firsts = []
   for c in range(ncalls):
     del world.LOG[:]
@@ -115,7 +119,7 @@ def c04_refs(place: int, evaluate: bool, rscope: int, amb: bool, mp: int, mq: in
     if mq == 1:
       kw['q'] = cq
     if amb:
-      with gin.config_scope('amb'):
+      with gin.config_scope(AMBIENT[amb]):
         world.cons(*pos, **kw)
     else:
       world.cons(*pos, **kw)
@@ -169,7 +173,7 @@ def c04_refs(place: int, evaluate: bool, rscope: int, amb: bool, mp: int, mq: in
           return False
         del world.SRC_CALLS[:]
         if amb:
-          with gin.config_scope('amb'):
+          with gin.config_scope(AMBIENT[amb]):
             res = g()
         else:
           res = g()
@@ -199,16 +203,16 @@ HARNESSES = {
         fn='c04_refs',
         anchors=['gin.config:__deepcopy__', 'gin.config:_decorate_with_scope', 'gin.config:gin_wrapper',
                  'gin.config:scoping_wrapper'],
-        smoke=[dict(place=3, evaluate=True, rscope=1, amb=True, mp=0, mq=0, ncalls=2, mut=True,
+        smoke=[dict(place=3, evaluate=True, rscope=1, amb=2, mp=0, mq=0, ncalls=2, mut=True,
                     v0=1, v1=2, v2=3, va=4, w0=5, cp=6, cq=7),
-               dict(place=2, evaluate=False, rscope=0, amb=True, mp=0, mq=1, ncalls=1, mut=False,
+               dict(place=2, evaluate=False, rscope=0, amb=1, mp=0, mq=1, ncalls=1, mut=False,
                     v0=1, v1=2, v2=3, va=4, w0=5, cp=6, cq=7)],
         tiers={'quick': dict(split=dict(place=list(range(8)), rscope=[0, 1, 2], mp=[0, 1, 2]),
                              fixed=dict(ncalls=2), budget_s=100),
                'thorough': dict(split=dict(place=list(range(8)), rscope=[0, 1, 2], mp=[0, 1, 2],
                                            ncalls=[1, 2, 3]), budget_s=300)},
         bounds='5 placements of one or two references (top level, list, tuple in dict, nested list, dict in '
-               'tuple) + 3 reference-free values with mutable containers inside a tuple / dict / list, evaluated or not, reference scope none/r1/r1/r2, ambient scope none/amb, parameter p '
+               'tuple) + 3 reference-free values with mutable containers inside a tuple / dict / list, evaluated or not, reference scope none/r1/r1/r2, ambient scope none / amb / x/r1 / xr1 / r1 / q/r1/r2 (the last four END with a reference scope), parameter p '
                'omitted/positional/keyword, parameter q omitted/keyword, 1-3 calls with or without the '
                'consumer mutating what it got; source values: all ints (through constants)'),
 }
